@@ -220,20 +220,22 @@ func (r Req) Bytes(secret string) []byte {
 
 // Runner executes the ops of one case on an environment.
 type Runner struct {
-	E       *Env
-	Name    string
-	Bk      *Bks
-	issued  []string       // codes issued in this case, by model number
-	byOp    map[int]string // op index -> code issued by that op
-	random  int64
-	conns   map[int]*websocket.Conn
-	connNo  map[int]int // UA -> model connection number
-	joins   int
-	bookOf  map[int]string // UA -> booking id of the token the connection was bound to (harness knowledge)
-	stats   string
-	Strad   bool // the wall clock ticked during an op
-	lastSec int64
-	AfterOp func(orig int, o *Op, out *Out) // called after each executed op (probes)
+	E          *Env
+	Name       string
+	Bk         *Bks
+	issued     []string       // codes issued in this case, by model number
+	byOp       map[int]string // op index -> code issued by that op
+	random     int64
+	conns      map[int]*websocket.Conn
+	connNo     map[int]int // UA -> model connection number
+	joins      int
+	bookOf     map[int]string // UA -> booking id of the token the connection was bound to (harness knowledge)
+	stats      string
+	Strad      bool // the wall clock ticked during an op
+	lastSec    int64
+	AfterOp    func(orig int, o *Op, out *Out) // called after each executed op (probes)
+	StopOnHang bool                            // end the history at the first request that gets no bytes back within the limit
+	Hung       bool                            // ... which happened
 }
 
 func NewRunner(e *Env, name string) *Runner {
@@ -379,6 +381,10 @@ func (r *Runner) Run(c *Case) {
 		}
 		ops = append(ops, o)
 		outs = append(outs, out)
+		if r.StopOnHang && out.K == "resp" && out.NoAnswer == "timeout" {
+			r.Hung = true // the server no longer answers: the history so far is the finding
+			break
+		}
 	}
 	// code references are by original op index: rewrite them to the executed numbering
 	for i := range ops {
